@@ -717,6 +717,8 @@ def carry_liveness(ctx, config="all", files=(), label="", floor=0):
             if d == 0:
                 rep.ok("%s|carry:%s" % (key, (name or "?").split("::")[-1]), v.where(cbi), "the pair is the return value")
                 continue
+            dty = v.local_ty(d)
+            is_flag = dty.get("k") == "tuple" and fld < len(dty.get("ts", [])) and dty["ts"][fld].get("n") == "bool"
             start = (t["target"], 0, frozenset([("f", d, fld)]))
             seen = set()
             stack = [start]
@@ -792,7 +794,10 @@ def carry_liveness(ctx, config="all", files=(), label="", floor=0):
                     for s2 in v.succ.get(bi, []):
                         stack.append((s2, 0, holders))
                 elif k == "return":
-                    bad = ("abandoned at return", v.where(bi))
+                    if not is_flag:
+                        bad = ("abandoned at return", v.where(bi))
+                    # a boolean flag may legitimately go unread on a path where another flag already decides the
+                    # result (`wrapped_a || wrapped_b` short-circuits); that it reaches the result at all is R-FLAG 1
                 else:
                     for s2 in v.succ.get(bi, []):
                         stack.append((s2, 0, holders))
